@@ -8,7 +8,7 @@ from vlib import (Verdict, build_harness, run_harness, tlc_check, tlc_trace, wri
                   replay_lines, drop_prefixes, workdir, log, seed, behaviour_at, write_replay,
                   split_behaviours, load_known)
 
-CBASE = {"Clients": {"c1", "c2"}, "MaxVer": 4, "Dev": set(), "Faults": False, "MaxOps": 3,
+CBASE = {"Clients": {"c1", "c2"}, "MaxVer": 4, "Dev": set(), "Faults": False, "PageSize": 0, "MaxOps": 3,
          "Ops": {"AV", "GC"}, "Draws": {255}, "WithAges": False, "MaxFaults": 0, "Emit": False,
          "MaxLen": 9999}
 CINVS = ["OneChildPerParent", "AckedOnChain", "ReadsOnChain", "RetainedComplete",
@@ -64,7 +64,8 @@ def cconform(v, wd, name, c, schedules, invs=CINVS[:5], max_failures=3, page_siz
             f.write(json.dumps({"id": i, "clients": sorted(c["Clients"]), "page_size": page_size,
                                 "steps": h}) + "\n")
     run_harness(["cloud-replay", "--in", stim, "--out", trace])
-    tc = {"Clients": c["Clients"], "MaxVer": 60, "Dev": set(dev), "Faults": True}
+    tc = {"Clients": c["Clients"], "MaxVer": 60, "Dev": set(dev), "Faults": True,
+          "PageSize": 0 if page_size >= 100000 else page_size}
     tcfg = write_cfg(os.path.join(wd, name + ".trace.cfg"), tc, spec="TSpec", invariants=invs,
                      postcondition="Accepted")
     stimuli = [json.loads(l) for l in open(stim)]
